@@ -13,6 +13,16 @@ DEFAULT_AGGS = [["v", o] for o in OPS] + [["uid", "co_count"]]
 ERRNAMES = {"AttributeError": "attr", "KeyError": "key", "IndexError": "index", "TypeError": "type", "NameError": "name"}
 BUILTIN_FEATS = ("uid", "x", "y", "idx")
 RES = [(1, 1), (0.5, 0.5), (2, 1), (1, 2), (1.5, 1), (0.5, 2), (3, 1), (1, 3), (2, 2), (0.25, 0.5), (1, 1.5)]
+# cell sizes of the near-integral float extents: (hi - lo) / r = k up to a few units in the last place
+NI_RES = [0.1, 0.2, 0.3, 0.7, 0.05, 1 / 3, 0.6, 1.1, 2.5, 60.0, 0.01, 0.5, 1.0, 100.0]
+ENU_EPS = 1e-4          # ENUCoords.__eq__ calls two positions equal when they differ by less than this on every axis
+
+
+def ulps(v, n):
+    """the float n units in the last place above (n > 0) / below (n < 0) v"""
+    for _ in range(abs(n)):
+        v = math.nextafter(v, math.inf if n > 0 else -math.inf)
+    return v
 
 
 def isnan(v):
@@ -42,11 +52,19 @@ class P(Prop):
         ("TracklibVerif.Props.C19", "TV.C19.session_spec", "invariant over call sequences: after ANY calls, then a well-formed addCollectionToRaster(T), then any calls other than addCollectionToRaster (bands added later, ...), then computeAggregates with every band <feature>#<operator>: neither raises, and EVERY band, whatever it held before, holds its operator over exactly the values of the observations of T located in each cell, NaN -> the raster's own no-data value as it is at that call (constructor's novalue or the last setNoDataValue)"),
         ("TracklibVerif.Props.C19", "TV.C19.summarize_spec", "one-shot corollary, end to end: on every collection of non-empty tracks (a north-south / east-west line of observations or a single one included: one column / one row), distinct (feature, operator) pairs, every track having every feature, summarize never fails nor returns 0, builds a well-formed grid covering all observations with one band per pair in call order, each band = its operator over exactly the located values, NaN -> NO_DATA_VALUE (the no-data value of the raster summarize builds)"),
         ("TracklibVerif.Props.C19", "TV.C19.rat_floor_ceil", "the driver's Rat.floor / Rat.ceil are the Int.floor / Int.ceil of the theorems"),
+        ("TracklibVerif.Props.C19", "TV.C19.rounded_cell_in_grid", "in FLOATING-POINT arithmetic (the same model at rationals with every operation rounded; any monotone rounding with relative error u that keeps the integers up to the grid size): on the grid the constructor computes, every point of the extent, borders included, whatever rounding did to extent / resolution, gets a cell 0<=col<ncol, 0<=line<nrow (no IndexError, no wrap-around through a negative index) whose footprint contains it up to the rounding allowance ((x - xmin)(1 -+ u)^2 between the cell's edges; + u nrow ry for the lines)"),
+        ("TracklibVerif.Props.C19", "TV.C19.rounded_conservation", "conservation for floats: with any monotone rounding that keeps the integers up to the grid size (no error bound needed) the scatter never fails, every value lands in exactly one cell of the grid, sizes sum to the number of observations, any per-value weight is conserved"),
+        ("TracklibVerif.Props.C19", "TV.C19.scatter_stops_at_outside", "the scatter loop meeting an observation outside the extent: the observations before it are in their cells, TypeError there, nothing after it is scattered (the partial state addCollectionToRaster leaves in a feature's grid)"),
+        ("TracklibVerif.Props.C19", "TV.C19.compute_failing_bands", "a failing computeAggregates: the bands before the first band that raises are rewritten, that band and the following ones are exactly as they were, nothing else of the raster changes"),
     ]
     partial = []
-    open_statements = ["IEEE rounding in (x-xmin)/rx, margins and sums is outside the theorems (floor-ring statement); sampled by the transfer check on float streams",
-                       "the values a TypeError-failing addCollectionToRaster leaves behind and the bands a failing computeAggregates has already rewritten are modelled and compared "
-                       "(driver), not stated as theorems (the exceptions themselves are: add_collection_missing_feature, add_collection_outside)",
+    open_statements = ["IEEE rounding inside the cell operators (the running sums of co_sum / co_avg, the half-sum of co_median) is outside the theorems "
+                       "(aggregate_spec is a field statement); sampled by the transfer check on the float streams. The grid geometry under rounding is proved "
+                       "(rounded_cell_in_grid, rounded_conservation); that the margin-enlarged extent still contains the bounding box under rounding is not stated "
+                       "(it needs rnd to be idempotent on floats)",
+                       "how the partial grids of several features and tracks combine when addCollectionToRaster raises TypeError (the for trace: for afname: order) is "
+                       "modelled and compared (driver), not stated as a theorem; the single loop is (scatter_stops_at_outside), the exceptions are "
+                       "(add_collection_missing_feature, add_collection_outside), a failing computeAggregates is (compute_failing_bands)",
                        ]
     modelled = ("core/raster.py: Raster.__init__ (margin, ncol/nrow = max(1, ceil(..))), getCell, and the Raster object as a state machine (Model/RasterSession.lean): "
                 "the bands (AFMap.__init__ name / grid checks, addAFMap with and without grid, getNamesOfAFMap order), collectionValuesGrid (absent before the first collection), "
@@ -55,7 +73,8 @@ class P(Prop):
                 "insertion order, IndexError / AttributeError / KeyError / NameError at the first cell of a band, NaN -> the raster's current no-data value, None included — fix 279f7b2), get/setNoDataValue; "
                 "algo/summarising.py summarize (argument checks, bounding box, one addAFMap per (feature, operator) in call order via AFMap.getMeasureName, add, compute); "
                 "core/track.py hasAnalyticalFeature / getObsAnalyticalFeature for uid, x, y, idx and the track's own features; "
-                "core/utils.py co_count co_sum co_min co_max co_avg co_median; the collection's bounding box is modelled as min/max of the coordinates")
+                "core/utils.py co_count co_sum co_min co_max co_avg co_median; the collection's bounding box is modelled as min/max of the coordinates. "
+                "The geometry definitions (mkGrid, getCell, scatter) are also instantiated at rationals with every operation rounded (Lemmas/RasterRounded.lean: RQ rnd) for the floating-point theorems")
     trusted = ["math.floor / math.ceil / float.is_integer are taken as exact floor, ceiling and integrality of the float;",
                "the iteration order of the Python set of features in addCollectionToRaster is recomputed by the harness (same insertions, same process) and passed to the model; "
                "it only matters for the values left behind when the scatter raises;",
@@ -80,6 +99,15 @@ class P(Prop):
             "addCollectionToRaster, the footprint of every observation's cell and the values kept per cell, and after every computeAggregates EVERY band against the collection scattered LAST; "
             "direct calls of the cell operators in sequence on ONE list (every ordered pair on fixed lists, random sequences), checking the values and that the list "
             "is left unchanged. "
+            "NEAR-INTEGRAL FLOAT EXTENTS (Float): per axis a cell size from 14 values (0.1, 0.3, 1/3, 0.7, 60, ...), k = 1..6 cells, an origin (0.1, 0.2, -0.7, 1000.1, random, a multiple of the cell), "
+            "the upper bound lo + k r / (1 + 2 margin) moved by -3..+3 ulps (3 in 10: by 1e-13..1e-5 of a cell more): extent / resolution = k - few ulp | k | k + few ulp | k +- 1e-13..1e-5; observations ON the four borders / corners, "
+            "within 2 ulps or 1e-13..1e-5 of a cell of a border and of every cell edge, anywhere; margins 0 (half of the cases) / 0.05 / 0.1 / 0.25 / 0.5; as summarize calls, as getCell probes on an explicit box (points 1 ulp outside too), as sessions on one raster. "
+            "MICRO-STEPS (Rat: dyadic steps 2^-14..2^-16, Float: 1.5e-5..9.5e-5): tracks that drift by steps smaller than the ENUCoords equality tolerance (1e-4) across a vertical edge, a horizontal edge, "
+            "a cell corner (both axes at once), forwards and backwards, stay on a spot (repeated fix), jump; feature values all different powers of two (a cell sum identifies its members), v#co_sum and uid#co_count always among the aggregates; "
+            "as summarize calls and as sessions (reuse / summarize-reuse / change). "
+            "ORACLE: every observation is located by exact rational arithmetic on the float values (column = the c with xmin + c rx <= x < xmin + (c+1) rx, closed on the outer border; lines from the top), independently of getCell; "
+            "on the float streams a coordinate within 2^-40 (relative to the largest magnitude among the coordinate, the extent bounds and the cell size) of an edge is accepted on either side (rounded_cell_in_grid bounds what a float formula of this kind can do by ~2^-51 of the extent); "
+            "getCell's answer, the values kept per cell and every band are checked against that location, observation by observation. "
             "non-trivial = a grid of at least 2 cells and at least 2 observations (sum), any (cell, op), a session that scatters and aggregates")
 
     def setup(self):
@@ -162,7 +190,166 @@ class P(Prop):
             out.append(self.floaty(rng))
         for _ in range(nrand // 5):
             out.append(self.cellcase(rng))
+        # float extents that are a whole number of cells up to rounding, observations ON the borders and within ulps of the edges
+        for _ in range(nrand // 4):
+            out.append(self.nearint(rng))
+        for _ in range(nrand // 10):
+            out.append(self.nearint_cell(rng))
+        for _ in range(nrand // 10):
+            out.append(self.session(rng, "f", geom=self.ni_geom(rng)))
+        # consecutive observations closer than the ENUCoords equality tolerance (0.1 mm), cell edges between them
+        for _ in range(nrand // 5):
+            out.append(self.micro(rng, "q"))
+        for _ in range(nrand // 8):
+            out.append(self.micro(rng, "f"))
+        for _ in range(nrand // 10):
+            out.append(self.session(rng, "q", tpl=rng.choice(["reuse", "summ-reuse", "change"]), walk=True))
+        for _ in range(nrand // 16):
+            out.append(self.session(rng, "f", tpl=rng.choice(["reuse", "summ-reuse"]), walk=True))
         return out
+
+    # ---- float extents within rounding of a whole number of cells
+    def ni_axis(self, rng, mg):
+        """[lo, hi] and a cell size r with (hi - lo) * (1 + 2 mg) / r = k up to a few units in the last place, from below, exactly, from above"""
+        r = rng.choice(NI_RES)
+        k = rng.randrange(1, 7)
+        lo = rng.choice([0.0, 0.1, 0.2, 0.3, -0.7, 1000.1, rng.uniform(-100, 100), r * rng.randrange(-5, 6), rng.uniform(-1e4, 1e4)])
+        hi = ulps(lo + k * r / (1 + 2 * mg), rng.choice([-3, -2, -1, 0, 0, 1, 2, 3]))
+        if rng.random() < 0.3:                                      # ... or by 1e-13 .. 1e-5 of a cell
+            hi = max(hi + rng.choice([-1, 1]) * r * 10 ** -rng.uniform(5, 13), ulps(lo, 1))
+        return lo, hi, r, k
+
+    def ni_near(self, rng, v, r):
+        """v itself, a few ulps away, or 1e-13 .. 1e-5 of a cell away"""
+        w = rng.random()
+        if w < 0.3:
+            return v
+        if w < 0.75:
+            return ulps(v, rng.choice([-2, -1, 1, 2]))
+        return v + rng.choice([-1, 1]) * r * 10 ** -rng.uniform(5, 13)
+
+    def ni_coord(self, rng, ax, mg):
+        """a coordinate of [lo, hi]: a border, within ulps of a border, within ulps of a cell edge, anywhere"""
+        lo, hi, r, k = ax
+        w = rng.random()
+        if w < 0.2:
+            v = lo
+        elif w < 0.45:
+            v = hi
+        elif w < 0.55:
+            v = self.ni_near(rng, rng.choice([lo, hi]), r)
+        elif w < 0.8:
+            v = self.ni_near(rng, lo - mg * (hi - lo) + rng.randrange(0, k + 1) * r, r)
+        else:
+            v = rng.uniform(lo, hi)
+        return min(max(v, lo), hi)
+
+    def ni_geom(self, rng):
+        mg = rng.choice([0, 0, 0, 0, 0.05, 0.1, 0.25, 0.5])
+        return {"x": self.ni_axis(rng, mg), "y": self.ni_axis(rng, mg), "mg": mg}
+
+    def nearint(self, rng):
+        g = self.ni_geom(rng)
+        tracks = []
+        for _ in range(rng.randrange(1, 4)):
+            n = rng.randrange(1, 7)
+            vs, ws = self.values(rng, n), self.values(rng, n)
+            tracks.append([[self.ni_coord(rng, g["x"], g["mg"]), self.ni_coord(rng, g["y"], g["mg"]), vs[k], ws[k]] for k in range(n)])
+        # the extent is the whole box: the four borders carry observations (corners in either pairing)
+        xs, ys = [g["x"][0], g["x"][1]], [g["y"][0], g["y"][1]]
+        if rng.random() < 0.5:
+            ys.reverse()
+        tracks[0].insert(rng.randrange(0, len(tracks[0]) + 1), [xs[0], ys[0], rng.choice([1.0, 2.5, "nan"]), 1.0])
+        tracks[-1].insert(rng.randrange(0, len(tracks[-1]) + 1), [xs[1], ys[1], rng.choice([4.0, -3.5, "nan"]), rng.choice([2.0, "nan"])])
+        return {"kind": "sum-nearint", "mode": "f", "tracks": tracks, "res": [g["x"][2], g["y"][2]], "margin": g["mg"],
+                "aggs": self.rand_aggs(rng), "runs": 1}
+
+    def nearint_cell(self, rng):
+        g = self.ni_geom(rng)
+        pts = []
+        for _ in range(12):
+            p = [self.ni_coord(rng, g["x"], g["mg"]), self.ni_coord(rng, g["y"], g["mg"])]
+            if rng.random() < 0.15:                                   # just outside / on the enlarged border
+                i = rng.randrange(2)
+                ax = g["xy"[i]]
+                d = g["mg"] * (ax[1] - ax[0])
+                p[i] = ulps(rng.choice([ax[0] - d, ax[1] + d]), rng.choice([-1, 0, 1]))
+            pts.append(p)
+        return {"kind": "cell", "mode": "f", "box": [g["x"][0], g["x"][1], g["y"][0], g["y"][1]], "res": [g["x"][2], g["y"][2]],
+                "margin": g["mg"], "pts": pts}
+
+    # ---- walks with steps below the ENUCoords equality tolerance
+    def walk_axis(self, rng, mode, lo, hi, edges, n):
+        """n successive coordinates in [lo, hi]: a drift by steps < 0.1 mm across one of the `edges`, or a constant"""
+        if mode == "q":
+            h = rng.choice([2.0 ** -14, 2.0 ** -15, 2.0 ** -16, 3 * 2.0 ** -16])
+        else:
+            h = rng.uniform(1.5e-5, 9.5e-5)
+        e = rng.choice(edges)
+        k0 = rng.randrange(-(n - 1), 1) if n > 1 else rng.choice([-1, 0, 1])     # the walk starts k0 steps before the edge
+        if mode == "q":
+            off = rng.choice([0, 0, 0.5]) * h                        # dyadic offsets: exact in both arithmetics
+        else:
+            off = rng.uniform(0, 1) * h
+        sgn = rng.choice([1, -1])
+        return [min(max(e + sgn * ((k0 + i) * h + off), lo), hi) for i in range(n)]
+
+    def walk(self, rng, mode, box, res, mg, n):
+        """n successive positions inside `box` = [x0, x1, y0, y1]; the cell edges are those of the raster built on the box"""
+        x0, x1, y0, y1 = box
+        gx0, gy0 = x0 - mg * (x1 - x0), y0 - mg * (y1 - y0)
+        ex = [gx0 + j * res[0] for j in range(0, int((x1 - gx0) / res[0]) + 2) if x0 <= gx0 + j * res[0] <= x1] or [x0]
+        ey = [gy0 + j * res[1] for j in range(0, int((y1 - gy0) / res[1]) + 2) if y0 <= gy0 + j * res[1] <= y1] or [y0]
+        pts = []
+        while len(pts) < n:
+            m = min(n - len(pts), rng.randrange(1, 6))
+            how = rng.choice(["x", "y", "xy", "x", "y", "stay", "jump"])
+            if how == "jump":
+                pts.append([rng.choice(ex + [rng.uniform(x0, x1) if mode == "f" else x0 + rng.randrange(0, 5) * (x1 - x0) / 4]),
+                            rng.choice(ey + [rng.uniform(y0, y1) if mode == "f" else y0 + rng.randrange(0, 5) * (y1 - y0) / 4])])
+                continue
+            if pts and rng.random() < 0.3:
+                bx, by = pts[-1]
+            else:
+                bx = rng.choice(ex) if mode == "q" else rng.uniform(x0, x1)
+                by = rng.choice(ey) if mode == "q" else rng.uniform(y0, y1)
+                if mode == "q":
+                    bx = min(max(bx + rng.choice([0, 0.25, -0.25, 0.5]) * res[0], x0), x1)
+                    by = min(max(by + rng.choice([0, 0.25, -0.25, 0.5]) * res[1], y0), y1)
+            X = self.walk_axis(rng, mode, x0, x1, ex, m) if "x" in how else [bx] * m
+            Y = self.walk_axis(rng, mode, y0, y1, ey, m) if "y" in how else [by] * m
+            pts += [[a, b] for a, b in zip(X, Y)]
+        return pts
+
+    def micro(self, rng, mode):
+        if mode == "q":
+            W, H = rng.randrange(1, 4), rng.randrange(1, 4)
+            ox, oy = rng.choice([0, 0, -3, 10, 0.5]), rng.choice([0, 0, 5, -7, -0.5])
+            res = list(rng.choice(RES))
+            mg = rng.choice([0, 0, 0, 0.125, 0.25, 0.5])
+        else:
+            W, H = rng.choice([1.0, 10.0, 120.0, 1000.0]), rng.choice([1.0, 10.0, 120.0, 1000.0])
+            ox, oy = rng.choice([0.0, rng.uniform(-1e3, 1e3)]), rng.choice([0.0, rng.uniform(-1e3, 1e3)])
+            res = [W / rng.choice([1, 2, 3, 4.5]), H / rng.choice([1, 2, 3, 4.5])]
+            mg = rng.choice([0, 0, 0.05, 0.1])
+        box = [ox, ox + W, oy, oy + H]
+        tracks, val = [], 1.0
+        for _ in range(rng.randrange(1, 4)):
+            n = rng.randrange(2, 10)
+            tr = []
+            for p in self.walk(rng, mode, box, res, mg, n):
+                # every value a different power of two: a sum identifies the set of observations behind it
+                tr.append([p[0], p[1], "nan" if rng.random() < 0.1 else val, rng.choice([1.0, 2.0, "nan", 0.5])])
+                val *= 2
+            tracks.append(tr)
+        # the extent is the whole box
+        tracks[0].insert(rng.choice([0, len(tracks[0])]), [box[0], box[2], val, 1.0])
+        tracks[-1].insert(rng.choice([0, len(tracks[-1])]), [box[1], box[3], 2 * val, "nan"])
+        aggs = self.rand_aggs(rng)
+        for a in (["v", "co_sum"], ["uid", "co_count"]):
+            if a not in aggs:
+                aggs.insert(rng.randrange(0, len(aggs) + 1), a)
+        return {"kind": "sum-micro-" + mode, "mode": mode, "tracks": tracks, "res": res, "margin": mg, "aggs": aggs, "runs": 1}
 
     def values(self, rng, n):
         style = rng.choice(["plain", "nan", "allnan", "ties"])
@@ -443,6 +630,43 @@ class P(Prop):
         return Prop.compare(self, case, impl_out, model_out)
 
     # ---------------------------------------------------------------- oracle (transfer)
+    def allowance(self, case, geo, x, y):
+        """how far outside the exact footprint a float observation may be: nothing on the exact streams; on the float
+        streams 2^-40 of the largest magnitude involved (the quotient (x - xmin) / rx, rounded twice, and the subtraction
+        from nrow - 1 are each off by at most 2^-53 relative: any formula of that kind stays 1000 times inside this)"""
+        if case["mode"] == "q":
+            return 0, 0
+        xmin, xmax, ymin, ymax = (fr(v) for v in geo[:4])
+        u = Fraction(1, 2 ** 40)
+        return (u * max(fr(case["res"][0]), abs(fr(x)), abs(xmin), abs(xmax)),
+                u * max(fr(case["res"][1]), abs(fr(y)), abs(ymin), abs(ymax)))
+
+    def admissible(self, case, geo, x, y):
+        """the columns and the lines (from the top) of the grid whose footprint contains x, resp. y — located with exact
+        rational arithmetic on the float values, independently of the implementation: column c = [xmin + c rx,
+        xmin + (c+1) rx), line l = [ymin + (nrow-1-l) ry, ymin + (nrow-l) ry), closed on the outer right / top border.
+        Exact streams: at most one of each. Float streams: a coordinate within the rounding allowance of an edge is
+        admitted on both sides."""
+        xmin, xmax, ymin, ymax, ncol, nrow = geo
+        rx, ry = fr(case["res"][0]), fr(case["res"][1])
+        ex, ey = self.allowance(case, geo, x, y)
+        X, Y = fr(x), fr(y)
+        c0 = math.floor((X - fr(xmin)) / rx)
+        u0 = math.floor((Y - fr(ymin)) / ry)
+        cols, lines = [], []
+        for c in (c0 - 1, c0, c0 + 1):
+            if 0 <= c < ncol:
+                a, b = fr(xmin) + c * rx, fr(xmin) + (c + 1) * rx
+                if a - ex <= X and (X < b + ex or (c == ncol - 1 and X <= b + ex)):
+                    cols.append(c)
+        for up in (u0 + 1, u0, u0 - 1):
+            l = nrow - 1 - up
+            if 0 <= l < nrow:
+                a, b = fr(ymin) + up * ry, fr(ymin) + (up + 1) * ry
+                if a - ey <= Y and (Y < b + ey or (l == 0 and Y <= b + ey)):
+                    lines.append(l)
+        return cols, lines
+
     def footprint(self, case, geo, x, y, cell):
         """None when (col, line) is a cell of the grid whose footprint contains (x, y)"""
         xmin, xmax, ymin, ymax, ncol, nrow = geo
@@ -452,18 +676,26 @@ class P(Prop):
         c, l = cell
         if not (0 <= c < ncol and 0 <= l < nrow):
             return "cell (col %d, line %d) is outside the %d x %d grid" % (c, l, ncol, nrow)
-        ex = 0 if case["mode"] == "q" else Fraction(1e-9) * max(rx, abs(fr(x)), 1)
-        ey = 0 if case["mode"] == "q" else Fraction(1e-9) * max(ry, abs(fr(y)), 1)
-        x0, x1 = fr(xmin) + c * rx, fr(xmin) + (c + 1) * rx
-        y0, y1 = fr(ymin) + (nrow - 1 - l) * ry, fr(ymin) + (nrow - l) * ry
-        X, Y = fr(x), fr(y)
-        okx = x0 - ex <= X and (X < x1 + ex or (c == ncol - 1 and X <= x1 + ex))
-        oky = y0 - ey <= Y and (Y < y1 + ey or (l == 0 and Y <= y1 + ey))
-        if not okx:
-            return "x = %s is not in column %d = [%s, %s)" % (x, c, float(x0), float(x1))
-        if not oky:
-            return "y = %s is not in line %d (from the top) = [%s, %s)" % (y, l, float(y0), float(y1))
+        cols, lines = self.admissible(case, geo, x, y)
+        if c not in cols:
+            return "x = %r is not in column %d = [%r, %r) (grid origin %r, cell width %r; the columns containing it: %s)" % (
+                x, c, float(fr(xmin) + c * rx), float(fr(xmin) + (c + 1) * rx), xmin, case["res"][0], cols)
+        if l not in lines:
+            return "y = %r is not in line %d (from the top) = [%r, %r) (grid origin %r, cell height %r, %d lines; the lines containing it: %s)" % (
+                y, l, float(fr(ymin) + (nrow - 1 - l) * ry), float(fr(ymin) + (nrow - l) * ry), ymin, case["res"][1], nrow, lines)
         return None
+
+    def locate(self, case, geo, obs, cells):
+        """the cell of every observation for the per-cell clauses: the one found by exact arithmetic; the implementation's
+        own (validated) answer only decides between the two sides of an edge that lies within the rounding allowance"""
+        out = []
+        for p, c in zip(obs, cells):
+            cols, lines = self.admissible(case, geo, p[0], p[1])
+            if len(cols) == 1 and len(lines) == 1:
+                out.append([cols[0], lines[0]])
+            else:
+                out.append([c[0] if len(cols) != 1 else cols[0], c[1] if len(lines) != 1 else lines[0]])
+        return out
 
     def agg(self, op, vals, nodata=NO_DATA):
         """the aggregate over the non-NaN values, computed with the standard library"""
@@ -537,7 +769,8 @@ class P(Prop):
         for o, c in zip(obs, out["cells"]):
             m = self.footprint(case, geo, o[0], o[1], c)
             if m:
-                return "observation (%s, %s) assigned to %s: %s" % (o[0], o[1], c, m)
+                return "observation (%r, %r) assigned to %s: %s" % (o[0], o[1], c, m)
+        where = self.locate(case, geo, obs, out["cells"])
         grids = out["grids"]
         ag = self.aggs(case)
         if sorted(grids) != sorted(f + "#" + o for f, o in ag):
@@ -548,7 +781,7 @@ class P(Prop):
         # EVERY produced grid is checked against the values located in each cell, whatever else was computed in the same call
         for f in self.feats(case):
             members = {}
-            for v, c in zip(self.fvals(case, f), out["cells"]):
+            for v, c in zip(self.fvals(case, f), where):
                 members.setdefault((c[1], c[0]), []).append(v)
             for ff, o in ag:
                 if ff != f:
@@ -609,6 +842,9 @@ class P(Prop):
             yield self.lattice(rng, "q")
         for _ in range(10):
             yield self.session(rng, "q")
+        for _ in range(6):
+            yield self.nearint(rng)
+            yield self.micro(rng, rng.choice(["q", "f"]))
 
     # ================================================================ sessions: sequences of calls on ONE raster object
     # case: {"kind": "session", "mode": q|f, "colls": [[{"uid", "pts": [[x, y]..], "f": {name: [values]}}..]..], "ops": [..]}
@@ -972,16 +1208,17 @@ class P(Prop):
                 for p, c in zip(obs, st["cells"]):
                     m = self.footprint(pc, snap["geo"], p[0], p[1], c)
                     if m:
-                        return where + "observation (%s, %s) assigned to %s: %s" % (p[0], p[1], c, m)
+                        return where + "observation (%r, %r) assigned to %s: %s" % (p[0], p[1], c, m)
                 if sorted(n for n, _ in snap["bands"]) != sorted(names):
                     return where + "bands %s for the requested aggregates %s" % ([n for n, _ in snap["bands"]], names)
                 afs_set = sorted(set(afs))
-                m = self.check_values(snap["geo"], snap["values"], tracks, st["cells"], afs_set) or \
-                    self.check_bands(snap["geo"], snap["nodata"], snap["bands"], tracks, st["cells"], afs_set)
+                loc = self.locate(pc, snap["geo"], obs, st["cells"])
+                m = self.check_values(snap["geo"], snap["values"], tracks, loc, afs_set) or \
+                    self.check_bands(snap["geo"], snap["nodata"], snap["bands"], tracks, loc, afs_set)
                 if m:
                     return where + m
                 cur = {"res": res, "bands": list(names)}
-                last = {"k": k, "tracks": copy.deepcopy(tracks), "cells": st["cells"], "afs": afs_set}
+                last = {"k": k, "tracks": copy.deepcopy(tracks), "cells": loc, "afs": afs_set}
                 continue
             if cur is None or snap is None:
                 if snap is not None:
@@ -1020,11 +1257,12 @@ class P(Prop):
                 for p, c in zip(obs, st["cells"]):
                     m = self.footprint(pc, geo, p[0], p[1], c)
                     if m:
-                        return where + "observation (%s, %s) assigned to %s: %s" % (p[0], p[1], c, m)
-                m = self.check_values(geo, snap["values"], tracks, st["cells"], afs)
+                        return where + "observation (%r, %r) assigned to %s: %s" % (p[0], p[1], c, m)
+                loc = self.locate(pc, geo, obs, st["cells"])
+                m = self.check_values(geo, snap["values"], tracks, loc, afs)
                 if m:
                     return where + m
-                last = {"k": op[1], "tracks": copy.deepcopy(tracks), "cells": st["cells"], "afs": afs}
+                last = {"k": op[1], "tracks": copy.deepcopy(tracks), "cells": loc, "afs": afs}
                 continue
             if kind == "compute":
                 wf = all(len(n.split("#")) >= 2 and n.split("#")[1] in OPS for n in cur["bands"])
@@ -1052,7 +1290,8 @@ class P(Prop):
             return [ox + x, oy + y]
         return [ox + rng.choice([0.0, W, rng.uniform(0, W)]), oy + rng.choice([0.0, H, rng.uniform(0, H)])]
 
-    def s_coll(self, rng, mode, W, H, ox, oy, uid0, empty_ok):
+    def s_coll(self, rng, mode, pts, uid0, empty_ok):
+        """pts(n): n successive positions of one track"""
         tracks = []
         lack_w = rng.random() < 0.2                                  # a track without the feature w
         for i in range(rng.randrange(1, 4)):
@@ -1064,7 +1303,7 @@ class P(Prop):
                     f["v"] = [v if v == "nan" else v + rng.choice([0, rng.uniform(-1, 1)]) for v in f["v"]]
                 if not (lack_w and i == 0):
                     f["w"] = self.values(rng, n)
-            tracks.append({"uid": uid0 + i, "pts": [self.s_point(rng, mode, W, H, ox, oy) for _ in range(n)], "f": f})
+            tracks.append({"uid": uid0 + i, "pts": pts(n), "f": f})
         return tracks
 
     def s_band(self, rng, odd=0.12):
@@ -1079,8 +1318,14 @@ class P(Prop):
         nr = max(1, math.ceil((box[3] - box[2]) * (1 + 2 * mg) / res[1])) + rng.choice([0, 0, 0, 0, 1, -1])
         return [[float(rng.randrange(-3, 9)) for _ in range(max(0, nc))] for _ in range(max(0, nr))]
 
-    def session(self, rng, mode, tpl=None):
-        if mode == "q":
+    def session(self, rng, mode, tpl=None, geom=None, walk=False):
+        """geom: a near-integral float geometry (ni_geom); walk: the tracks are walks with steps below the ENUCoords
+        equality tolerance across the cell edges of the raster built on the study area"""
+        if geom is not None:
+            (ox, x1, rx, _), (oy, y1, ry, _) = geom["x"], geom["y"]
+            W, H, res, mg = x1 - ox, y1 - oy, [rx, ry], geom["mg"]
+            pt = lambda: [self.ni_coord(rng, geom["x"], mg), self.ni_coord(rng, geom["y"], mg)]
+        elif mode == "q":
             W, H = rng.randrange(1, 4), rng.randrange(1, 4)
             ox, oy = rng.choice([0, 0, -3, 10, 0.5]), rng.choice([0, 0, 5, -7, -0.5])
             res = list(rng.choice(RES))
@@ -1088,24 +1333,34 @@ class P(Prop):
         else:
             W, H = rng.choice([1.0, 10.0, 1000.0]), rng.choice([1.0, 10.0, 1000.0])
             ox, oy = rng.uniform(-1e4, 1e4), rng.uniform(-1e4, 1e4)
+            if walk:
+                ox, oy = rng.choice([0.0, rng.uniform(-1e3, 1e3)]), rng.choice([0.0, rng.uniform(-1e3, 1e3)])
             res = [W / rng.choice([1, 2, 3, 4.5]), H / rng.choice([1, 2, 3, 4.5])]
             mg = rng.choice([0, 0.05, 0.1, 0.3])
+        if geom is None:
+            x1, y1 = ox + W, oy + H
+            pt = lambda: self.s_point(rng, mode, W, H, ox, oy)
+        pts = lambda n: [pt() for _ in range(n)]
+        if walk:
+            if tpl != "summ-reuse":                                    # the raster is built on the study area itself
+                mg = rng.choice([0, 0, mg])
+            pts = lambda n: self.walk(rng, mode, [ox, x1, oy, y1], res, mg, n) if n else []
         tpl = tpl or rng.choice(["reuse", "reuse", "reuse", "summ-reuse", "summ-reuse", "late-band", "change", "errors", "soup", "soup", "two-rasters", "nodata", "nodata"])
         ncoll = rng.randrange(2, 4)
-        colls = [self.s_coll(rng, mode, W, H, ox, oy, 1 + 10 * k, empty_ok=(k > 0)) for k in range(ncoll)]
+        colls = [self.s_coll(rng, mode, pts, 1 + 10 * k, empty_ok=(k > 0)) for k in range(ncoll)]
         # collection 0 has no empty track and spans the study area: a raster built on its bounding box contains the others
         if not colls[0][0]["pts"]:
             colls[0][0]["pts"] = [[ox, oy]]
             colls[0][0]["f"] = {"v": [1.0], "w": [2.0]}
         for t in colls[0]:
             if not t["pts"]:
-                t["pts"], t["f"] = [[ox + W, oy]], {"v": ["nan"], "w": [0.5]}
+                t["pts"], t["f"] = [[x1, oy]], {"v": ["nan"], "w": [0.5]}
         colls[0][0]["pts"][0] = [ox, oy]
         t = colls[0][-1]
-        t["pts"].append([ox + W, oy + H])
+        t["pts"].append([x1, y1])
         for n in t["f"]:
             t["f"][n].append(rng.choice([1.0, "nan", -3.5]))
-        area = [ox, ox + W, oy, oy + H]
+        area = [ox, x1, oy, y1]
         nov = None                                                  # None: the constructor's default; "None": novalue=None
         if tpl == "nodata" or rng.random() < 0.25:
             nov = rng.choice([-1.0, 0.0, -99999.0, 12345.0, -1.0, 0.5, "None"])
@@ -1113,7 +1368,7 @@ class P(Prop):
             return ["nodata", rng.choice([-1.0, 0.0, -99999.0, 7.0, 2.5, "None"])]
         new = ["new", rng.choice([area, area, {"of": 0}]), res, mg, nov]
         if tpl == "errors" and rng.random() < 0.4:                  # a raster smaller than the study area: observations outside
-            new = ["new", [ox, ox + W / 2, oy, oy + H / 2] if mode == "q" else [ox, ox + W * 0.5, oy, oy + H * 0.5], res, mg, nov]
+            new = ["new", [ox, ox + W / 2, oy, oy + H / 2], res, mg, nov]
         bands = []
         for _ in range(rng.randrange(1, 6)):
             b = self.s_band(rng, 0.25 if tpl == "errors" else 0.04)
